@@ -69,7 +69,11 @@ def _path_work(args):
         if opts.get("replay"):
             from . import replay
             hook = replay.model_hook
-        inc = solve.PathSolver(st.facts, set(hard), opts.get("hints"))
+        hints = opts.get("hints") or {}
+        if getattr(c, "variant", None):
+            # witness scenarios are attached to the unrestricted contract only; a restricted variant must be proved
+            hints = {k: v for k, v in hints.items() if v != "witness"}
+        inc = solve.PathSolver(st.facts, set(hard), hints)
         for ob in st.obligations:
             if ob.kind == "guarded-by":
                 ob.status = "discharged" if z3.is_true(ob.goal) else "failed"
